@@ -105,11 +105,14 @@ def delete_branch(job: DeleteBranchJob):
     try:
         del_branch.checkout()
         repo.cmd('git tag %s' % archive_tag)
-        repo.cmd('git push origin %s' % archive_tag)
+        # publish the archive tag and delete the branch in a single atomic
+        # push: an interruption or a refused deletion must not leave the tag
+        # behind without the deletion (the job could not be run again).
+        repo.cmd('git push --atomic origin %s :%s'
+                 % (archive_tag, del_branch.name))
     except CommandError:
-        raise exceptions.JobFailure('Unable to push new tag, '
-                                    'keep pushing.')
-
-    do_delete(del_branch, force=True)
+        raise exceptions.JobFailure('Unable to push the archive tag and '
+                                    'delete the branch on the repository, '
+                                    'please check branch permissions.')
 
     raise exceptions.JobSuccess()
